@@ -34,6 +34,11 @@ One case = one *fault history* followed by HEAL and a QUIET PERIOD:
                   TAIL x raftMaxTimeout after everything below held for the first time (stability), or when the
                   period is used up.
 
+  long walk back  kind `long_walkback` (and `stale_leader` with a short leaderFallbackTimeout + a minority down in the
+                  random stream): the returning old leader is NEEDED for the majority and answers nothing but
+                  rejections for longer than leaderFallbackTimeout (0.25 / 0.5 / 1 s against a stale tail of 6 / 20 /
+                  60 entries; thorough tier: the default 30 s against 300 / 420 entries) while the new leader steps
+                  back one index per round trip.  Coverage counts the histories whose walk really outlasted T.
   restarts        (`kill` = kill -9, the peers are not told; `restart` = new process, it connects again and the peers
                   get a second onNodeConnected)
                   * a READ-ONLY node loses everything and comes back (kind `observer_restart`: confirmed and caught
@@ -685,6 +690,20 @@ def d_long_walkback(h, var):
     h.run(2, DT, rest)
     h.submit(N, "tiny", var["tail"] + var.get("more", 3))     # the new log is longer: the walk starts at the top
     h.run(6, DT, rest)
+    if var.get("reelect", True):
+        # leadership on the majority side is lost and won again AFTER the log grew: the new leader's nextIndex for
+        # the absent node starts at its own (long) log end, whatever it believed about the link before
+        T = h.sim.conf.get("leaderFallbackTimeout", 30.0)
+        inner = [(a, b) for (a, b) in h.pairs if a in restV and b in restV]
+        for (a, b) in inner:
+            h.sever(a, b, "noticed")
+        h.run(int(T / DT) + 6, DT, rest)
+        for (a, b) in inner:
+            h.ev("connect", a, b)
+        N = h.elect(restV, max_steps=160)
+        if N is None:
+            return
+        h.run(3, DT, rest)
     keep = [L, N]
     more = [v for v in restV if v != N]
     while 2 * len(keep) <= len(h.V):
@@ -1589,8 +1608,9 @@ def params(ctx):
         for tail, mode in ((300, "silent"), (420, "outside")):
             conf = draw_conf(rng, "long_walkback")
             conf["leaderFallbackTimeout"] = 30.0
-            extra.append({"kind": "long_walkback", "nv": 3, "no": 0, "conf": conf, "var": {"tail": tail, "mode": mode, "more": 5,
-                                                                                            "before_heal": 2},
+            conf["appendEntriesBatchSizeBytes"] = BIG       # (silent link: the optimistic nextIndex reaches the log end)
+            extra.append({"kind": "long_walkback", "nv": 3, "no": 0, "conf": conf, "var": {"tail": tail, "mode": "silent", "more": 5,
+                                                                                            "before_heal": 2, "reelect": False},
                           "seed": rng.randrange(10 ** 6), "post": "leader", "early": "lagging", "post_k": 0, "heal_all": True,
                           "dumpfile": False, "down": "notes", "down_mode": "noticed", "down_ticks": False, "quiet": 100})
     return corpus_params() + directed_params(rng) + extra + random_params(rng, ctx.scale(300, 8000))
@@ -1652,10 +1672,33 @@ def _inc(d, k, n=1):
     d[str(k)] = d.get(str(k), 0) + n
 
 
+def _scratch(ctx):
+    """directory for the journals / dump files of the histories that use them.  File journals msync every record:
+    on a busy disk that is ~10x slower than the whole rest of a history, so a memory file system is preferred
+    (the directory is removed at the end of run/replay in any case; ctx.tmpdir() is the fallback)."""
+    shm = "/dev/shm"
+    if os.path.isdir(shm) and os.access(shm, os.W_OK):
+        import tempfile
+        try:
+            return tempfile.mkdtemp(prefix="pso-verif-c05-", dir=shm), True
+        except OSError:
+            pass
+    return ctx.tmpdir(), False
+
+
 def run(ctx):
+    workdir, own = _scratch(ctx)
+    try:
+        return _run(ctx, workdir)
+    finally:
+        if own:
+            import shutil
+            shutil.rmtree(workdir, ignore_errors=True)
+
+
+def _run(ctx, workdir):
     t0 = time.time()
     ps = params(ctx)
-    workdir = ctx.tmpdir()
     budget = min(ctx.budget_s * 0.5, 11.0) if ctx.tier == "quick" else ctx.budget_s * 0.7
     results = []
     if ctx.tier == "quick" or ctx.jobs <= 1:
@@ -1847,6 +1890,12 @@ def run(ctx):
 
 def replay(ctx, violation):
     p = violation["replay"]["params"]
-    r = scenario(ctx.repo, p, ctx.tmpdir())
+    workdir, own = _scratch(ctx)
+    try:
+        r = scenario(ctx.repo, p, workdir)
+    finally:
+        if own:
+            import shutil
+            shutil.rmtree(workdir, ignore_errors=True)
     return {"violated": any(v["signature"] == violation["signature"] for v in r["viol"]),
             "violations": r["viol"][:5], "observed": r["cov"]}
